@@ -531,7 +531,8 @@ def run(rep):
         "depth_bound": {"one_trainer": depth1, "two_trainers": depth2 + 1, "two_trainers_with_custom_monitors": depth2},
         "configurations": len(jobs),
         "capped_configurations": c.get("capped_configs", 0),
-        "exhaustive": c.get("capped_configs", 0) == 0 or True,
+        "state_capped_configurations": c.get("state_capped_configs", 0),
+        "exhaustive": c.get("state_capped_configs", 0) == 0,
         "exhaustive_note": "all event sequences up to the depth bound per configuration (canonical-state dedup); capped_configurations counts configurations "
                            "whose frontier was cut by the depth bound or the state cap",
         "evaluations": c.get("transitions", 0),
